@@ -45,7 +45,7 @@ class C17(FsProp):
                  "what": "temporary file opened without truncation: unsafe after an interrupted edit (Restart)"}]
 
     def cases(self, tier, rng):
-        cl = ["C17.safe", "C17.error", "C17.prefix", "X17.fsmodel"]
+        cl = ["C17.safe", "C17.error", "C17.prefix", "C17.works", "X17.fsmodel"]
         reqs = []
         for f in FIELDS:
             forms = ["s1", "c"] + (["unenc"] if f != "private" else [])
@@ -66,7 +66,10 @@ class C17(FsProp):
                     entries = entries[:1]
                 for e in entries:
                     out.append({"version": v, "P": B, "tree": mk_tree("D2", (B + 1, 3 * B)), "req": r, "entry": e,
-                                "present": ["announce", "comment"] if k % 2 else [], "clauses": cl})
+                                "present": ["announce", "comment"] if k % 2 else [], "clauses": cl,
+                                # every third request: the metafile lives on another filesystem than the
+                                # system temp directory (a rename from there is impossible)
+                                "other_fs": k % 3 == 0})
         return out
 
     def case_id(self, rec_id):
